@@ -30,12 +30,15 @@ type Call struct {
 	Add []int  `json:"add"`
 	Rem []int  `json:"rem"`
 	Key string `json:"key"`
+	Wf  bool   `json:"wf"` // create / comment / edit: the call attaches files
 }
 
 type Comment struct {
 	Op  int `json:"op"`
 	Au  int `json:"au"`
 	Msg int `json:"msg"`
+	// files of the comment: 0 = none, i = the files attached by the operation at position i
+	Files int `json:"files"`
 }
 type Item struct {
 	Kind string `json:"kind"`
@@ -92,6 +95,34 @@ func labels(xs []int) []string {
 type env struct {
 	authors []identity.Interface // index 1, 2
 	idx     map[entity.Id]int
+	repo    repository.ClockedRepo
+	fileNo  map[repository.Hash]int
+}
+
+// files attached by the operation at position i (two distinct blobs, stored in the repository)
+func (e *env) files(i int, wf bool) []repository.Hash {
+	if !wf {
+		return nil
+	}
+	var hs []repository.Hash
+	for _, suffix := range []string{"a", "b"} {
+		h, err := e.repo.StoreData([]byte(fmt.Sprintf("file %d%s", i, suffix)))
+		hx.Must(err)
+		e.fileNo[h] = i
+		hs = append(hs, h)
+	}
+	return hs
+}
+
+func (e *env) filesToken(hs []repository.Hash) int {
+	if len(hs) == 0 {
+		return 0
+	}
+	n := e.fileNo[hs[0]]
+	if len(hs) != 2 || n == 0 || e.fileNo[hs[1]] != n || hs[0] == hs[1] {
+		return -5
+	}
+	return n
 }
 
 func (e *env) au(i identity.Interface) int {
@@ -135,7 +166,7 @@ func (e *env) project(s *bug.Snapshot) Snap {
 		p.Meta = append(p.Meta, m)
 	}
 	for _, c := range s.Comments {
-		p.Comments = append(p.Comments, Comment{Op: pos[c.TargetId()], Au: e.au(c.Author), Msg: num(c.Message, "message ")})
+		p.Comments = append(p.Comments, Comment{Op: pos[c.TargetId()], Au: e.au(c.Author), Msg: num(c.Message, "message "), Files: e.filesToken(c.Files)})
 		if byCombined[c.CombinedId()] != pos[c.TargetId()] {
 			p.Comments[len(p.Comments)-1].Op = -7
 		}
@@ -198,9 +229,9 @@ func (e *env) apply(b bug.Interface, c Call, unix int64) error {
 	var err error
 	switch c.K {
 	case "comment":
-		_, _, err = bug.AddComment(b, a, unix, fmt.Sprintf("message %d", i), nil, nil)
+		_, _, err = bug.AddComment(b, a, unix, fmt.Sprintf("message %d", i), e.files(i, c.Wf), nil)
 	case "edit":
-		_, _, err = bug.EditComment(b, a, unix, target(s, c.T), fmt.Sprintf("message %d", i), nil, nil)
+		_, _, err = bug.EditComment(b, a, unix, target(s, c.T), fmt.Sprintf("message %d", i), e.files(i, c.Wf), nil)
 	case "title":
 		_, err = bug.SetTitle(b, a, unix, fmt.Sprintf("title %d", i), nil)
 	case "status":
@@ -234,9 +265,9 @@ func (e *env) applyCache(b *cache.BugCache, c Call, unix int64) error {
 	var err error
 	switch c.K {
 	case "comment":
-		_, _, err = b.AddCommentRaw(a, unix, fmt.Sprintf("message %d", i), nil, nil)
+		_, _, err = b.AddCommentRaw(a, unix, fmt.Sprintf("message %d", i), e.files(i, c.Wf), nil)
 	case "edit":
-		_, err = b.EditCommentRaw(a, unix, entity.CombineIds(b.Id(), target(s, c.T)), fmt.Sprintf("message %d", i), nil)
+		_, err = b.EditCommentWithFilesRaw(a, unix, entity.CombineIds(b.Id(), target(s, c.T)), fmt.Sprintf("message %d", i), e.files(i, c.Wf), nil)
 	case "title":
 		_, err = b.SetTitleRaw(a, unix, fmt.Sprintf("title %d", i), nil)
 	case "status":
@@ -275,7 +306,7 @@ type worker struct {
 }
 
 func newEnv(repo repository.ClockedRepo) *env {
-	e := &env{authors: make([]identity.Interface, 3), idx: map[entity.Id]int{}}
+	e := &env{authors: make([]identity.Interface, 3), idx: map[entity.Id]int{}, repo: repo, fileNo: map[repository.Hash]int{}}
 	for i := 1; i <= 2; i++ {
 		id, err := identity.NewIdentity(repo, fmt.Sprintf("a%d", i), "a@example.org")
 		hx.Must(err)
@@ -289,7 +320,7 @@ func newEnv(repo repository.ClockedRepo) *env {
 func (w *worker) run(v Vec, withCache bool) string {
 	var unix int64 = 1_600_000_000
 	// path 1: in memory
-	b, _, err := bug.Create(w.e.authors[1], unix, "title 1", "message 1", nil, map[string]string{"k0": "own"})
+	b, _, err := bug.Create(w.e.authors[1], unix, "title 1", "message 1", w.e.files(1, v.Calls[0].Wf), map[string]string{"k0": "own"})
 	hx.Must(err)
 	for k, c := range v.Calls[1:] {
 		if err := w.e.apply(b, c, unix+int64(k)+1); err != nil {
@@ -320,7 +351,7 @@ func (w *worker) run(v Vec, withCache bool) string {
 				return "" // the cache API has no no-op call
 			}
 		}
-		cb, _, err := w.cache.Bugs().NewRaw(w.ce.authors[1], unix, "title 1", "message 1", nil, map[string]string{"k0": "own"})
+		cb, _, err := w.cache.Bugs().NewRaw(w.ce.authors[1], unix, "title 1", "message 1", w.ce.files(1, v.Calls[0].Wf), map[string]string{"k0": "own"})
 		if err != nil {
 			return "cache: NewRaw failed: " + err.Error()
 		}
@@ -362,7 +393,7 @@ func Run(args []string) {
 			c, err := hx.OpenCache(w.crepo)
 			hx.Must(err)
 			w.cache = c
-			w.ce = &env{authors: make([]identity.Interface, 3), idx: map[entity.Id]int{}}
+			w.ce = &env{authors: make([]identity.Interface, 3), idx: map[entity.Id]int{}, repo: w.crepo, fileNo: map[repository.Hash]int{}}
 			for i := 1; i <= 2; i++ {
 				ic, err := c.Identities().New(fmt.Sprintf("a%d", i), "a@example.org")
 				hx.Must(err)
@@ -418,7 +449,7 @@ func TraceCmd(args []string) {
 	hx.Parallel(count, 0, func(i int) {
 		rng := newRng(uint64(seed)*1000003 + uint64(i))
 		n := 20 + int(rng.next()%uint64(maxlen-19))
-		calls := []Call{{K: "create", A: 1, Add: []int{}, Rem: []int{}}}
+		calls := []Call{{K: "create", A: 1, Add: []int{}, Rem: []int{}, Wf: rng.next()%2 == 0}}
 		kinds := []string{"comment", "comment", "edit", "edit", "title", "status", "labelf", "label", "label", "meta"}
 		for len(calls) < n {
 			k := kinds[rng.next()%uint64(len(kinds))]
@@ -426,6 +457,9 @@ func TraceCmd(args []string) {
 			switch k {
 			case "edit":
 				c.T = []string{"create", "last", "unknown"}[rng.next()%3]
+				c.Wf = rng.next()%2 == 0
+			case "comment":
+				c.Wf = rng.next()%2 == 0
 			case "status":
 				c.S = []string{"open", "closed"}[rng.next()%2]
 			case "labelf", "label":
@@ -447,7 +481,7 @@ func TraceCmd(args []string) {
 		w := &worker{mock: repository.NewMockRepo()}
 		w.e = newEnv(w.mock)
 		var unix int64 = 1_600_000_000
-		b, _, err := bug.Create(w.e.authors[1], unix, "title 1", "message 1", nil, map[string]string{"k0": "own"})
+		b, _, err := bug.Create(w.e.authors[1], unix, "title 1", "message 1", w.e.files(1, calls[0].Wf), map[string]string{"k0": "own"})
 		hx.Must(err)
 		ev := map[string]interface{}{"ev": "Seq", "calls": calls, "err": ""}
 		steps := []map[string]interface{}{w.e.slim(b.Compile())}
